@@ -147,14 +147,15 @@ def gen_cases(ctx):
                     add(runner='cert', site='cv13c-f12', ver=(3, 4), verifier='server', key=key, how=how, target='cv',
                         server_key=skey)
         # (2) TLS <= 1.2 client CertificateVerify
+        small = ['honest', 'other-key', 'other-msg', 'omit', 'flip', 'empty', 'stale', 'bad-finished']
         for ver in [(3, 0), (3, 1), (3, 2), (3, 3)]:
             for key in ['client-rsa', 'client-ecdsa', 'client-dsa'] + (['client-ed25519', 'rsapss'] if ver == (3, 3) else []):
-                for how in sig_hows:
+                for how in (small if quick and ver in ((3, 1), (3, 2)) else sig_hows):
                     add(runner='cert', site='cv12', ver=ver, verifier='server', key=key, how=how, target='cv')
         # (1) ServerKeyExchange signature + (9) Finished + RSA key transport
         for ver in [(3, 0), (3, 1), (3, 2), (3, 3)]:
             for key in ['rsa', 'ecdsa', 'dsa'] + (['ed25519', 'ed448', 'rsapss', 'ecdsa384'] if ver == (3, 3) else []):
-                for how in [h for h in sig_hows if h != 'omit'] + ['replay-ske']:
+                for how in [h for h in (small if quick and ver in ((3, 1), (3, 2)) else sig_hows) if h != 'omit'] + ['replay-ske']:
                     add(runner='cert', site='ske', ver=ver, verifier='client', key=key, how=how, target='ske')
             for how in ['honest', 'other-key', 'bad-finished']:
                 add(runner='cert', site='keytransport', ver=ver, verifier='client', key='rsa', how=how, target='ske',
@@ -182,15 +183,15 @@ def gen_cases(ctx):
                 for match in (True, False):
                     add(runner='cert', site='checker', ver=ver, verifier=verifier, key=key, how='honest', target='cv',
                         checker_match=match, checker_fp='@' + (key if match else 'ecdsa521'))
-        for c in extra_cases():
+        for c in extra_cases(quick):
             c['seed'] = rng.randrange(1 << 30)
             cases.append(c)
     return cases
 
 
-def extra_cases():
+def extra_cases(quick):
     import c05_cases
-    return c05_cases.extra_cases() if hasattr(c05_cases, 'extra_cases') else []
+    return c05_cases.extra_cases(quick)
 
 
 def jobs(o):
@@ -219,10 +220,21 @@ def property_oracle(ctx, case, o):
         key = 'unproved-srp-username:%s' % o['site']
         what = ('server completed a %s handshake WITHOUT SRP and recorded session.srpUsername=%r taken from the '
                 'unauthenticated ClientHello extension' % (o['ver'], idn['srp']))
-    elif o['expect_accept']:
+    elif o['expect_accept'] and not (accepted and o['model'].get('sig_answer') is False):
         if not accepted or (o['claimed'] is not None and peer_id != o['claimed']):
             key = 'honest-proof-rejected:%s:%s' % (o['site'], o['how'])
             what = 'honest %s proof (%s, %s) was not accepted / identity not recorded: %s' % (o['site'], o['key'], o['ver'], o['outcome'])
+    elif o['site'] == 'pha' and not accepted and idn['client'] != o.get('pha_before'):
+        # post-handshake auth works on the live session object: a failed proof must leave it untouched
+        key = 'identity-recorded-despite-failed-proof:pha:%s' % o['how']
+        what = ('post-handshake authentication failed (%s, key %s: %s) but session.clientCertChain was changed from %r to %r'
+                % (o['how'], o['key'], o['outcome'], o.get('pha_before'), idn['client']))
+    elif accepted and o['model'].get('sig_answer') is False:
+        # accepted although the signature on the wire does not verify, with the certificate's key, over the
+        # bytes the RFCs prescribe for this transcript (computed by the harness, not by the code under test)
+        key = 'accepted-without-valid-signature:%s' % o['site']
+        what = ('%s endpoint accepted (%s, %s, key %s) but the signature sent does not verify over the RFC verify-bytes of '
+                'this transcript' % (o['verifier'], o['ver'], o['how'], o['key']))
     else:
         if accepted:
             key = 'accepted:%s:%s' % (o['site'], o['how'])
@@ -276,7 +288,7 @@ def run(ctx):
         if o.get('skip'):
             continue
         good.append((c, o))
-        ctx.count('live:' + o['site'], 1, [(o['site'], tuple(o['ver']), o['key'], o['how'], o['code'])],
+        ctx.count('live:' + o['site'], 1, [(o['site'], tuple(o['ver']), o['key'], c.get('dc'), c.get('server_key'), str(c.get('scheme')), o['how'], o['code'])],
                   sample=jobs({k: v for k, v in o.items() if k != 'model'}) if len(good) % 131 == 1 else None)
         if o['code'] != 0 and (o['ident']['client'] or o['ident']['server'] or o['ident']['srp']):
             ctx.count('residual-identity-on-closed-failed-connection', 1, [(o['site'], o['how'])])
